@@ -27,6 +27,8 @@ type SpecCtx struct {
 	pre   *State
 	vars  map[string]SpecVal
 	local func(c *SpecCtx, name string) (SpecVal, bool, error)
+	// preLocal resolves locals inside pre(...): loop-carried variables have their value at loop entry
+	preLocal func(c *SpecCtx, name string) (SpecVal, bool, error)
 	depth int
 	inOld bool
 }
@@ -647,6 +649,9 @@ func (c *SpecCtx) call(x *ast.CallExpr) SpecVal {
 			c.fail("pre() only inside loop invariants")
 		}
 		n := c.inState(c.pre)
+		if c.preLocal != nil {
+			n.local = c.preLocal
+		}
 		return n.tr(x.Args[0])
 	case "len":
 		v := c.tr(x.Args[0])
